@@ -132,8 +132,9 @@ type refEnc struct {
 	// strict: oj.Marshal writes a nil []any reached as a plain value as null (documented Go
 	// compatibility); the other entry points write [].
 	strict bool
-	// jsonStyle: what encoding/json does where it deliberately differs: nil slices, maps and []byte
-	// are null (only used to describe the allowed laxness, see laxEqual)
+	// nilWord: the deviation C15-iface-nil-word (only used to classify that known finding): omitempty
+	// on an interface field also drops a value whose interface data word is nil
+	nilWord bool
 }
 
 func (e *refEnc) typeName(rt reflect.Type) string {
@@ -294,7 +295,7 @@ func (e *refEnc) fields(n *lib.Node, v reflect.Value) {
 				}
 			}
 		}
-		if omit && isEmptyValue(fv) {
+		if omit && (isEmptyValue(fv) || e.nilWord && fv.Kind() == reflect.Interface && wordNil(fv.Elem())) {
 			continue
 		}
 		n.Keys = append(n.Keys, lib.HexF([]byte(key)))
